@@ -295,6 +295,50 @@ func (e *didEnv) monC03UTF8() {
 	}))
 }
 
+// monC05GenesisSeqWrap evaluates "deactivation is permanent" on a chain started from a hand-written genesis whose
+// (valid, active) document carries the largest sequence number: deactivating it must leave a tombstone — the DID must
+// not become creatable again — or the genesis validation has to refuse such an entry.
+func (e *didEnv) monC05GenesisSeqWrap() {
+	e.s.Emit("mon.c05.genesis-seq-wrap", guard(func() string {
+		k, stranger := newDidKey("wrap-owner"), newDidKey("wrap-stranger")
+		did := didtypes.NewDID(k.pub)
+		vmID := did + "#key1"
+		mkDoc := func(key *didKey) *didtypes.DIDDocument {
+			vm := &didtypes.VerificationMethod{Id: vmID, Type: didtypes.ES256K_2019, Controller: did, PublicKeyBase58: key.b58}
+			d := didtypes.NewDIDDocument(did, didtypes.WithVerificationMethods([]*didtypes.VerificationMethod{vm}),
+				didtypes.WithAuthentications([]didtypes.VerificationRelationship{rel(vmID)}))
+			return &d
+		}
+		w := didtypes.NewDIDDocumentWithSeq(mkDoc(k), ^uint64(0))
+		gs := didtypes.GenesisState{Documents: map[string]*didtypes.DIDDocumentWithSeq{didtypes.GenesisDIDDocumentKey{DID: did}.Marshal(): &w}}
+		if err := gs.Validate(); err != nil {
+			return "pass #rejected-by-genesis-validation"
+		}
+		bz, err := e.c.App.AppCodec().MarshalJSON(&gs)
+		if err != nil {
+			return "pass #not-encodable"
+		}
+		c2, err := NewChain(memDB(), tmpHome(), nil, 0, map[string]json.RawMessage{didtypes.ModuleName: bz})
+		if err != nil {
+			return "pass #rejected-by-init-genesis"
+		}
+		c2.Begin(c2.Time)
+		ms := didkeeper.NewMsgServerImpl(c2.App.DidKeeper)
+		g := sdk.WrapSDKContext(c2.DeliverCtx())
+		sig, _ := didtypes.Sign(&didtypes.DIDDocument{Id: did}, ^uint64(0), k.priv)
+		from := sdk.AccAddress([]byte("relayer-1-address-xx")).String()
+		if _, err := ms.DeactivateDID(g, &didtypes.MsgDeactivateDIDRequest{Did: did, VerificationMethodId: vmID, Signature: sig, FromAddress: from}); err != nil {
+			return "pass #deactivation-refused"
+		}
+		doc2 := mkDoc(stranger)
+		sig2, _ := didtypes.Sign(doc2, 0, stranger.priv)
+		if _, err := ms.CreateDID(g, &didtypes.MsgCreateDIDRequest{Did: did, Document: doc2, VerificationMethodId: vmID, Signature: sig2, FromAddress: from}); err == nil {
+			return "fail #deactivated-did-created-again-by-a-stranger"
+		}
+		return "pass"
+	}))
+}
+
 // monC11Genesis evaluates C11 on a chain started from a hand-written genesis: an entry whose key is one DID and
 // whose (well-formed, active) document describes another must not get into the registry — the module's genesis
 // validation has to refuse it.
@@ -768,6 +812,7 @@ func init() {
 		ids, rel := mkIdents()
 		e.monC03UTF8()
 		e.monC11Genesis()
+		e.monC05GenesisSeqWrap()
 		for h := 0; h < n; h++ {
 			didHistory(e, rng, ids, rel, 15+rng.Intn(30))
 		}
